@@ -287,6 +287,63 @@ Qed.
 Lemma copy_is_not_element a i x y : VPtr y <> VRef a i x.
 Proof. discriminate. Qed.
 
+(* ==================== Errors: every element exactly as zap.Error delivers it ==================== *)
+(* zap.Errors / zap.Any([]error) "choose the same representation as the corresponding typed
+   constructor": element i of the slice reaches the array encoder as an object holding EXACTLY the
+   calls zap.Error(errs[i]) makes -- for every error value, whatever it exposes beyond Error() (a
+   %+v form, members, a nil pointer, a panicking Error method).  An element that reached the
+   encoder through anything that only forwards Error() would lose all of that. *)
+(* what the encoder receives when the single error x is logged with zap.Error(x) *)
+Definition as_error (la lb : Z) (x : val) : option (list call) :=
+  option_map snd (deliver la lb [] ($"Error") [] x).
+(* the array elements zap.Errors owes for the slice l: nothing for a nil error, else one object
+   holding exactly the calls zap.Error makes for that very element *)
+Fixpoint error_elems (la lb : Z) (l : list val) : option (list call) :=
+  match l with
+  | [] => Some []
+  | x :: r =>
+      match as_error la lb x, error_elems la lb r with
+      | Some [], Some cs => Some cs
+      | Some c, Some cs => Some ((($"AppendObject"), [], VCalls c) :: cs)
+      | _, _ => None
+      end
+  end.
+
+Lemma error_calls_nonempty k e : error_calls k e <> [].
+Proof.
+  unfold error_calls. destruct e as [m v [l|]| |p]; cbn; try discriminate.
+  destruct v as [t|]; [destruct (bytes_eqb t m)|]; discriminate.
+Qed.
+
+Lemma as_error_opq la lb o : as_error la lb (VOpq o) = Some (error_calls ($"error") (oerr o)).
+Proof. reflexivity. Qed.
+Lemma as_error_nil la lb : as_error la lb VNil = Some [].
+Proof. reflexivity. Qed.
+
+Theorem errors_thm : forall la lb stack k a l, forallb (in_typeb (TIface IError)) l = true ->
+  exists f cs, construct T ctor_fuel la stack ($"Errors") k (VSlice a l) = Some f /\
+               error_elems la lb l = Some cs /\
+               addto T (addto_fuel (VSlice a l)) lb f = Some [(($"AddArray"), k, VCalls cs)].
+Proof.
+  intros la lb stack k a l Hl. eexists. 
+  assert (E : exists cs, error_elems la lb l = Some cs /\
+              forall A i, oconcati (loop1 lb A (LErrs ($"error")) a) i l = Some cs).
+  { induction l as [|x r IH]; [exists []; split; reflexivity|].
+    cbn in Hl. apply andb_true_iff in Hl as [Hx Hr]. destruct (IH Hr) as (cs & E1 & E2).
+    destruct x; try discriminate Hx.
+    - exists ((($"AppendObject"), [], VCalls (error_calls ($"error") (oerr o))) :: cs). split.
+      + cbn [error_elems]. rewrite as_error_opq, E1.
+        pose proof (error_calls_nonempty ($"error") (oerr o)) as N.
+        destruct (error_calls ($"error") (oerr o)); [elim N; reflexivity|reflexivity].
+      + intros A i. cbn [oconcati]. rewrite E2. reflexivity.
+    - exists cs. split.
+      + cbn [error_elems]. rewrite as_error_nil, E1. reflexivity.
+      + intros A i. cbn [oconcati]. rewrite E2. reflexivity. }
+  destruct E as (cs & E1 & E2). exists cs. split; [reflexivity|]. split; [exact E1|].
+  unfold addto_fuel. remember (S (val_depth (VSlice a l))) as n eqn:En. clear En.
+  cbn. unfold run_loop. rewrite E2. reflexivity.
+Qed.
+
 (* ==================== Equals on the Fields the constructors build ==================== *)
 (* [la]: what time.Local pointed to while the Field was built *)
 Definition built (la : Z) (stack : bytes) (c : ctor) (k : bytes) (v : val) (f : field) : Prop :=
@@ -363,7 +420,7 @@ Definition equals_refl_orig : Prop :=
 
 (* a Stringer whose dynamic type is a slice: not comparable *)
 Definition slice_stringer : val :=
-  VOpq {| oty := 10; oaddr := 1; ocontent := 0; ocmp := false; oself := true; ostr := [x73]; oerr := [] |}.
+  VOpq {| oty := 10; oaddr := 1; ocontent := 0; ocmp := false; oself := true; ostr := [x73]; oerr := eplain [] |}.
 Definition nan64 : Z := 0x7FF8000000000000.
 
 Definition ctor_named (n : name) : ctor :=
@@ -593,13 +650,26 @@ Lemma of_bool_dec b : negb (sx_z (of_bool b) =? 0) = b.
 Proof. destruct b; reflexivity. Qed.
 
 (* decoding is a left inverse of encoding *)
+Lemma einfo_codec : forall e, einfo_of_sx (sx_of_einfo e) = e.
+Proof.
+  induction e using einfo_ind'; [|reflexivity|reflexivity].
+  assert (M : forall l, Forall (Pm (fun e => einfo_of_sx (sx_of_einfo e) = e)) l ->
+            map (fun x => match x with SZ _ => None | _ => Some (einfo_of_sx x) end)
+                (map (fun o => match o with None => SZ 0 | Some x => sx_of_einfo x end) l) = l).
+  { induction 1 as [|[x|] r Hx Hr IH]; [reflexivity| |]; cbn [map]; rewrite IH; [|reflexivity].
+    cbn in Hx. destruct (sx_of_einfo x) eqn:E; [|rewrite Hx; reflexivity|rewrite Hx; reflexivity].
+    (* an encoded error is never a bare integer *)
+    destruct x as [m0 [t0|] [l0|]| |p0]; discriminate E. }
+  destruct v as [t|], c as [l|]; cbn in *; rewrite ?M by assumption; reflexivity.
+Qed.
+
 Lemma codec : forall v, val_of_sx (sx_of_val v) = v.
 Proof.
   induction v using val_ind'; cbn; try reflexivity.
   - destruct b; reflexivity.
   - destruct n; reflexivity.
   - destruct t; reflexivity.
-  - destruct o as [a b c d e f g]. cbn. destruct d, e; reflexivity.
+  - destruct o as [a b c d e f g]. cbn. rewrite einfo_codec. destruct d, e; reflexivity.
   - rewrite IHv. reflexivity.
   - rewrite IHv. reflexivity.
   - f_equal. rewrite map_map. induction H as [|x l Hx Hl IH]; [reflexivity|]. cbn. rewrite Hx, IH. reflexivity.
